@@ -26,7 +26,7 @@ m = {
         "enable": "RUSTFLAGS='--cfg fe2o3_amqp_verif' (set by ./check for the harness crates that need the facade; passes through cargo kani and cargo +nightly rustc)",
         "baseline_off_cmd": "cd /repo && cargo test --workspace --no-fail-fast --offline",
         "source_commits": HOOK_COMMITS,
-        "add_only": True,
+        "add_only": False,
     },
     "engines": [
         {"name": "kani", "path": "/verif/kani", "serves_properties": sorted(p for p, c in CLAIMED.items() if "kani" in c["engine"]), "kind_free_text": "Kani 0.68 / CBMC 6.11 bounded model checking of harness crates that call the real code (path dependencies on /repo)"},
@@ -34,7 +34,7 @@ m = {
     ],
     "checks": checks,
     "not_applicable": [{"property_id": p, "reason": r} for p, r in sorted(NOT_APPLICABLE.items())],
-    "notes": "Solver-based checking only. exit 2 from ./check = inconclusive (never a pass, never a violation). Known findings: /verif/known_findings.json.",
+    "notes": "Hooks: one existing line in link/state.rs (the match arm `Err(_) => self.notifier.notified().await`) is rewritten into a block to host the cfg-guarded schedule point; everything else is added. Solver-based checking only. exit 2 from ./check = inconclusive (never a pass, never a violation). Known findings: /verif/known_findings.json.",
 }
 json.dump(m, open(os.path.join(VERIF, "MANIFEST.json"), "w"), indent=1)
 print("MANIFEST.json:", len(checks), "checks,", len(NOT_APPLICABLE), "not applicable")
